@@ -345,6 +345,36 @@ func permutations(c *core.Ctx, cf cfg, r *core.Rng) {
 	c.Count("sets_with_all_first_execution_orders", 1)
 }
 
+// deepHistory builds a history that executes a template nested or chained some tens of levels.
+func deepHistory(k int, data []gen.DataSpec) *hist.History {
+	depth := 26 + 2*(k%3)
+	var text string
+	switch k % 3 {
+	case 0:
+		text = strings.Repeat("{{range $.L0}}", depth) + "x{{.E0}}" + strings.Repeat("{{end}}", depth)
+	case 1:
+		var b strings.Builder
+		for i := 0; i < depth; i++ {
+			fmt.Fprintf(&b, `{{define "t%d"}}{{template "t%d" $}}{{if $.C0}}{{template "t%d" $.N}}{{else}}<b>{{end}}{{end}}`, i, i+1, i)
+		}
+		fmt.Fprintf(&b, `{{define "t%d"}}x{{end}}{{template "t0" $}}`, depth)
+		text = b.String()
+	default:
+		text = `<p title="` + strings.Repeat("{{range $.L1}}{{if $.C1}}", depth/2) + "{{$.S0}}" + strings.Repeat("{{end}}{{end}}", depth/2) + `">x</p>`
+	}
+	// lists of one element: the execution itself must stay linear in the depth
+	d0 := data[0]
+	d0.L = append([][][2]string(nil), d0.L...)
+	for i := range d0.L {
+		if len(d0.L[i]) > 1 {
+			d0.L[i] = d0.L[i][:1]
+		}
+	}
+	h := &hist.History{Data: []gen.DataSpec{d0}, NVar: 2}
+	h.Ops = []hist.Op{{Kind: "new", H: -1, Dst: 0, Name: "root"}, {Kind: "parse", H: 0, Dst: 0, Text: text}, {Kind: "exec", H: 0, Dst: -1, Data: 0}, {Kind: "exec", H: 0, Dst: -1, Data: 0}}
+	return h
+}
+
 func run(c *core.Ctx, cf cfg) {
 	r := c.Rng("histories")
 	n := cf.n(c) / c.NShards
@@ -354,8 +384,22 @@ func run(c *core.Ctx, cf cfg) {
 			permutations(c, cf, rp)
 		}
 	}
-	for i := 0; i < n; i++ {
+	deep := 0
+	if cf.total {
+		// deeply nested and chained templates: the analysis treats loop bodies and recursive
+		// templates twice, which may not take 2^depth steps (shards share the shapes)
+		deep = 6
+	}
+	for i := 0; i < n+deep; i++ {
 		h, set := hist.Gen(r, cf.gopts(r, i))
+		if i >= n {
+			if k := i - n; c.Mine(k) {
+				h = deepHistory(k, h.Data)
+				set.Modes = nil
+			} else {
+				continue
+			}
+		}
 		for _, m := range set.Modes {
 			c.Hist("failure_modes_generated", m)
 		}
